@@ -3641,6 +3641,150 @@ theorem C09_aggr_writer_nested_round_trip {F} (env : Env F) (hagg : env.cfg.aggr
       exact ⟨u, hr u hu, rfl, Seps.blanks [] (by simp), rfl, rfl⟩) l sk rest
   simpa [List.map_map, Function.comp_def] using this
 
+/-- **aggregate of STRING, written and read back** (string nodes written into their own scratch string: `stringNodeAppends = false`,
+    as `Generated.rwCfg` has it on the repaired source): a non-empty list of literals of the full string grammar is written as it is,
+    comma-separated, and read back to the same literals; the stream's `skipws` flag is left off, as after every STRING -/
+theorem C09_aggr_writer_string_round_trip {F} (env : Env F) (hcfg : env.lex.criSkipsComments = true)
+    (hagg : env.cfg.aggrSkipsComments = true) (happ : env.cfg.stringNodeAppends = false) (d : Dict)
+    (bs : List (List Byte)) (hne : bs ≠ []) (hr : ∀ b ∈ bs, StringBody b) (l : List Byte) (sk : Bool) (rest : List Byte) :
+    aggrRead env .string
+        (G l (writeAggr env.ops env.cfg d .string (bs.map (fun b => (Elem.atom (.str (39 :: (b ++ [39]))) : Elem F))) ++ rest) sk) =
+      .ok (.null, some (bs.map (fun b => (Elem.atom (.str (39 :: (b ++ [39]))) : Elem F))),
+        G ((writeAggr env.ops env.cfg d .string (bs.map (fun b => (Elem.atom (.str (39 :: (b ++ [39]))) : Elem F)))).reverse ++ l)
+          rest false) := by
+  have htk : ∀ (sc : List Byte) (a : Atom F), nodeWrite env.ops env.cfg d .string sc (Elem.atom a) =
+      (match a with | .str t => t | _ => []) := by
+    intro sc a; cases a <;> simp [nodeWrite, happ]
+  have hw : writeAggr env.ops env.cfg d .string (bs.map (fun b => (Elem.atom (.str (39 :: (b ++ [39]))) : Elem F))) =
+      40 :: renderQ (bs.map (fun b => (⟨39 :: (b ++ [39]), [], [], .atom (.str (39 :: (b ++ [39])))⟩ : ElemQ F))) := by
+    unfold writeAggr
+    have := writeNodes_atoms env.ops env.cfg d .string _ htk
+      (bs.map (fun b => (Atom.str (39 :: (b ++ [39])) : Atom F))) [] (by simpa using hne)
+    simp only [List.map_map, Function.comp_def] at this
+    simp only [List.cons_append, List.nil_append, List.map_map, Function.comp_def]
+    rw [this]
+  rw [hw]
+  have hok : ∀ e ∈ bs.map (fun b => (⟨39 :: (b ++ [39]), [], [], .atom (.str (39 :: (b ++ [39])))⟩ : ElemQ F)),
+      ElemReads env .string (fun _ => false) e := by
+    intro e he
+    obtain ⟨b, hb, rfl⟩ := List.mem_map.1 he
+    exact ElemReads.string env hcfg hagg b [] [] (hr b hb) (Seps.blanks [] (by simp)) (Seps.blanks [] (by simp))
+  have := C09_aggr_accept env hagg .string (fun _ => false) (fun _ => rfl) _ (by simpa using hne) hok l sk rest
+  simpa [List.map_map, Function.comp_def] using this
+
+/-- **aggregate of BINARY, written and read back**: non-empty hexadecimal contents -/
+theorem C09_aggr_writer_binary_round_trip {F} (env : Env F) (hcfg : env.lex.criSkipsComments = true)
+    (hagg : env.cfg.aggrSkipsComments = true) (d : Dict) (hs : List (List Byte)) (hne : hs ≠ [])
+    (hr : ∀ h ∈ hs, h ≠ [] ∧ h.all isXDigit = true) (l : List Byte) (sk : Bool) (rest : List Byte) :
+    aggrRead env .binary (G l (writeAggr env.ops env.cfg d .binary (hs.map (fun h => (Elem.atom (.bin h) : Elem F))) ++ rest) sk) =
+      .ok (.null, some (hs.map (fun h => (Elem.atom (.bin h) : Elem F))),
+        G ((writeAggr env.ops env.cfg d .binary (hs.map (fun h => (Elem.atom (.bin h) : Elem F)))).reverse ++ l) rest sk) := by
+  have htk : ∀ (sc : List Byte) (a : Atom F), nodeWrite env.ops env.cfg d .binary sc (Elem.atom a) =
+      (match a with | .unset => [36] | a => writeAtomCore env.ops .binary a) := by
+    intro sc a; cases a <;> rfl
+  have hw : writeAggr env.ops env.cfg d .binary (hs.map (fun h => (Elem.atom (.bin h) : Elem F))) =
+      40 :: renderQ (hs.map (fun h => (⟨writeBinary h, [], [], .atom (.bin h)⟩ : ElemQ F))) := by
+    unfold writeAggr
+    have := writeNodes_atoms env.ops env.cfg d .binary _ htk (hs.map (fun h => (Atom.bin h : Atom F))) [] (by simpa using hne)
+    simp only [List.map_map, Function.comp_def, writeAtomCore] at this
+    simp only [List.cons_append, List.nil_append, List.map_map, Function.comp_def]
+    rw [this]
+  rw [hw]
+  have hok : ∀ e ∈ hs.map (fun h => (⟨writeBinary h, [], [], .atom (.bin h)⟩ : ElemQ F)), ElemReads env .binary id e := by
+    intro e he
+    obtain ⟨h, hh, rfl⟩ := List.mem_map.1 he
+    obtain ⟨h1, h2⟩ := hr h hh
+    have hwb : writeBinary h = 34 :: (h ++ [34]) := by
+      unfold writeBinary
+      have : h.isEmpty = false := by cases h <;> simp_all
+      simp [this]
+    rw [hwb]
+    exact ElemReads.binary env hcfg hagg h [] [] h1 h2 (Seps.blanks [] (by simp)) (Seps.blanks [] (by simp))
+  have := C09_aggr_accept env hagg .binary id (fun _ => rfl) _ (by simpa using hne) hok l sk rest
+  simpa [List.map_map, Function.comp_def] using this
+
+/-- **aggregate of entity references, written and read back**: ids `0 ≤ id ≤ INT_MAX` of instances the look-up finds with the
+    right type are written `#id` and read back to the same ids -/
+theorem C09_aggr_writer_ref_round_trip {F} (env : Env F) (hcfg : env.lex.criSkipsComments = true)
+    (hagg : env.cfg.aggrSkipsComments = true) (d : Dict) (tg : String) (ids : List Nat) (hne : ids ≠ [])
+    (hr : ∀ n ∈ ids, ((n : Nat) : Int) ≤ intMax ∧ refLookup env.lookup tg ((n : Nat) : Int) = .found)
+    (l : List Byte) (sk : Bool) (rest : List Byte) :
+    aggrRead env (.entity tg)
+        (G l (writeAggr env.ops env.cfg d (.entity tg) (ids.map (fun n => (Elem.atom (.ref ((n : Nat) : Int)) : Elem F))) ++ rest) sk) =
+      .ok (.null, some (ids.map (fun n => (Elem.atom (.ref ((n : Nat) : Int)) : Elem F))),
+        G ((writeAggr env.ops env.cfg d (.entity tg) (ids.map (fun n => (Elem.atom (.ref ((n : Nat) : Int)) : Elem F)))).reverse ++ l)
+          rest sk) := by
+  have htk : ∀ (sc : List Byte) (a : Atom F), nodeWrite env.ops env.cfg d (.entity tg) sc (Elem.atom a) =
+      (match a with | .unset => [36] | a => writeAtomCore env.ops (.entity tg) a) := by
+    intro sc a; cases a <;> rfl
+  have hw : writeAggr env.ops env.cfg d (.entity tg) (ids.map (fun n => (Elem.atom (.ref ((n : Nat) : Int)) : Elem F))) =
+      40 :: renderQ (ids.map (fun n => (⟨35 :: showInt ((n : Nat) : Int), [], [], .atom (.ref ((n : Nat) : Int))⟩ : ElemQ F))) := by
+    unfold writeAggr
+    have := writeNodes_atoms env.ops env.cfg d (.entity tg) _ htk (ids.map (fun n => (Atom.ref ((n : Nat) : Int) : Atom F))) []
+      (by simpa using hne)
+    simp only [List.map_map, Function.comp_def, writeAtomCore] at this
+    simp only [List.cons_append, List.nil_append, List.map_map, Function.comp_def]
+    rw [this]
+  rw [hw]
+  have hok : ∀ e ∈ ids.map (fun n => (⟨35 :: showInt ((n : Nat) : Int), [], [], .atom (.ref ((n : Nat) : Int))⟩ : ElemQ F)),
+      ElemReads env (.entity tg) id e := by
+    intro e he
+    obtain ⟨n, hn, rfl⟩ := List.mem_map.1 he
+    obtain ⟨h1, h2⟩ := hr n hn
+    obtain ⟨t1, t2, t3⟩ := toDigits_spec n
+    have hs : showInt ((n : Nat) : Int) = (Nat.toDigits 10 n).map Char.toNat := by
+      unfold showInt
+      have : ¬ ((n : Nat) : Int) < 0 := by omega
+      simp [this]
+    rw [hs]
+    have := ElemReads.entity env hcfg hagg tg ((Nat.toDigits 10 n).map Char.toNat) [] [] t3 t2 (by rw [t1]; exact h1)
+      (by rw [t1]; exact h2) (Seps.blanks [] (by simp)) (Seps.blanks [] (by simp))
+    rw [t1] at this
+    exact this
+  have := C09_aggr_accept env hagg (.entity tg) id (fun _ => rfl) _ (by simpa using hne) hok l sk rest
+  simpa [List.map_map, Function.comp_def] using this
+
+/-- **aggregate of BOOLEAN / LOGICAL / ENUMERATION, written and read back**: every index `i` whose table entry is a non-empty name
+    of the grammar that the table finds again (and that is not the "unset" entry) is written `.NAME.` and read back to `i` -/
+theorem C09_aggr_writer_enum_round_trip {F} (env : Env F) (hcfg : env.lex.criSkipsComments = true)
+    (hagg : env.cfg.aggrSkipsComments = true) (d : Dict) (ty : ElemTy) (het : EnumTy ty) (is : List Nat) (hne : is ≠ [])
+    (hr : ∀ i ∈ is, (enumTable ty).getD i bUNSET ≠ [] ∧ ((enumTable ty).getD i bUNSET).all pw = true ∧
+      findName (enumKindOf ty).table (((enumTable ty).getD i bUNSET).map toUpper) = some i ∧ (enumKindOf ty).isUnsetIdx i = false)
+    (l : List Byte) (sk : Bool) (rest : List Byte) :
+    aggrRead env ty (G l (writeAggr env.ops env.cfg d ty (is.map (fun i => (Elem.atom (.enum i) : Elem F))) ++ rest) sk) =
+      .ok (.null, some (is.map (fun i => (Elem.atom (.enum i) : Elem F))),
+        G ((writeAggr env.ops env.cfg d ty (is.map (fun i => (Elem.atom (.enum i) : Elem F)))).reverse ++ l) rest sk) := by
+  have htk : ∀ (sc : List Byte) (a : Atom F), nodeWrite env.ops env.cfg d ty sc (Elem.atom a) = writeAtomCore env.ops ty a := by
+    intro sc a
+    rcases het with rfl | rfl | ⟨items, rfl⟩ <;> rfl
+  have hw : writeAggr env.ops env.cfg d ty (is.map (fun i => (Elem.atom (.enum i) : Elem F))) =
+      40 :: renderQ (is.map (fun i => (⟨46 :: ((enumTable ty).getD i bUNSET ++ [46]), [], [], .atom (.enum i)⟩ : ElemQ F))) := by
+    unfold writeAggr
+    have := writeNodes_atoms env.ops env.cfg d ty _ htk (is.map (fun i => (Atom.enum i : Atom F))) [] (by simpa using hne)
+    simp only [List.map_map, Function.comp_def, writeAtomCore, List.singleton_append, List.cons_append, List.nil_append] at this
+    simp only [List.cons_append, List.nil_append, List.map_map, Function.comp_def]
+    rw [this]
+  rw [hw]
+  have hok : ∀ e ∈ is.map (fun i => (⟨46 :: ((enumTable ty).getD i bUNSET ++ [46]), [], [], .atom (.enum i)⟩ : ElemQ F)),
+      ElemReads env ty id e := by
+    intro e he
+    obtain ⟨i, hi, rfl⟩ := List.mem_map.1 he
+    obtain ⟨h1, h2, h3, h4⟩ := hr i hi
+    exact ElemReads.enum env hcfg hagg ty het _ [] [] i h1 h2 h3 h4 (Seps.blanks [] (by simp)) (Seps.blanks [] (by simp))
+  have := C09_aggr_accept env hagg ty id (fun _ => rfl) _ (by simpa using hne) hok l sk rest
+  simpa [List.map_map, Function.comp_def] using this
+
+/-- the hypotheses of `C09_aggr_writer_enum_round_trip` hold for both values of BOOLEAN and the three of LOGICAL that can be
+    stored — `.F.`, `.T.`, `.U.`; index 2 is the "unset" entry — (kernel evaluation of the tables) -/
+theorem C09_aggr_writer_boolean_logical_witness :
+    (∀ i ∈ [0, 1], (enumTable .boolean).getD i bUNSET ≠ [] ∧ ((enumTable .boolean).getD i bUNSET).all pw = true ∧
+      findName (enumKindOf .boolean).table (((enumTable .boolean).getD i bUNSET).map toUpper) = some i ∧
+      (enumKindOf .boolean).isUnsetIdx i = false) ∧
+    (∀ i ∈ [0, 1, 3], (enumTable .logical).getD i bUNSET ≠ [] ∧ ((enumTable .logical).getD i bUNSET).all pw = true ∧
+      findName (enumKindOf .logical).table (((enumTable .logical).getD i bUNSET).map toUpper) = some i ∧
+      (enumKindOf .logical).isUnsetIdx i = false) := by
+  decide
+
 end Aggregates
 
 /-! ## anywhere in a stream, either state of `skipws`
